@@ -315,6 +315,12 @@ class JUnitReporter(Reporter):
             # -- ENSURE: Create multiple directory levels at once.
             os.makedirs(self.config.junit_directory)
 
+        # -- ENSURE: Attribute values contain only chars that are valid in XML.
+        for element in suite.iter():
+            for name, value in element.items():
+                value = ansi_escapes.strip_escapes(value)
+                element.set(name, _escape_invalid_xml_chars(value))
+
         tree = ElementTreeWithCDATA(suite)
         report_dirname = self.config.junit_directory
         report_basename = u'TESTS-%s.xml' % feature_filename
